@@ -79,8 +79,12 @@ def run_case(case):
         skip = False
         if metric == 'L1':
             # skip directions for which some residual changes sign within +-t
-            for cl in model.cliques:
-                for Q, y, noise, proj in eng.groups[cl]:
+            # (from the harness's own copy of the measurements, for every clique that could host the projection: the
+            # engine's internal grouping is not an interface)
+            for m in meas:
+                Q, y, proj = m.Qd, m.y, tuple(m.proj)
+                for cl in model.cliques:
+                    if not set(proj) <= set(cl): continue
                     r0 = (Q @ mu[cl].project(proj).datavector() - y)
                     r1 = (Q @ (mu + t * d)[cl].project(proj).datavector() - y)
                     r2 = (Q @ (mu - t * d)[cl].project(proj).datavector() - y)
